@@ -19,11 +19,7 @@ Theorem C07_mean_is_training_mean :
     compute_mean_exec D Xs = POk (vtab D (mean_vec N (mof Xs))) /\
     (of_nat N <> 0%F -> training_mean N D (mof Xs) (mean_vec N (mof Xs))) /\
     (forall m, of_nat N <> 0%F -> training_mean N D (mof Xs) m -> veq D m (mean_vec N (mof Xs))).
-Proof.
-  intros F Fo Ff N D Xs H. split; [exact (compute_mean_exec_ok N D Xs H)|]. split.
-  - intros HN. exact (mean_is_training_mean N D (mof Xs) HN).
-  - intros m HN. exact (training_mean_unique N D (mof Xs) m HN).
-Qed.
+Proof. exact @mean_is_training_mean_all. Qed.
 Print Assumptions C07_mean_is_training_mean.
 
 Example C07_mean_nonvacuous :
@@ -95,11 +91,7 @@ Theorem C07_project_affine :
     (forall x y c, (mpi_project D P m x c - mpi_project D P m y c)%F =
                    sumn D (fun t => (P t c * (x t - y t))%F)) /\
     (forall c, mpi_project D P m m c = 0%F).
-Proof.
-  intros F Fo Ff D d P m. split; [exact (project_affine D d P m)|].
-  split; [exact (project_affine_general D P m)|].
-  split; [exact (project_linear_part D P m)|exact (project_mean_zero D P m)].
-Qed.
+Proof. exact @project_affine_all. Qed.
 Print Assumptions C07_project_affine.
 
 (* 4. with the training mean, every embedding column sums to zero *)
@@ -132,12 +124,7 @@ Theorem C07_projecting_output_Qc :
       projecting_embed_tail D d P Xs = POk (Y, PFMatrix P m) /\
       output_consistent N D d (mof Xs) (mof Y) (mof P) (vof m) /\
       output_consistent_tol_b N D d (Q2Qc 0) Xs Y P m = Some true.
-Proof.
-  intros N D d P Xs HN HP HX.
-  destruct (@projecting_embed_tail_ok Qc QcOps QcField N D d P Xs HP HX) as [Y [m [H1 [_ [_ [H4 _]]]]]].
-  exists Y, m. split; [assumption|]. split; [apply H4; apply Qc_of_nat_neq0; assumption|].
-  eapply model_output_passes; eassumption.
-Qed.
+Proof. exact projecting_output_Qc. Qed.
 Print Assumptions C07_projecting_output_Qc.
 
 Example C07_projecting_output_nonvacuous : 4 <> 0 /\ wf_mat 3 2 ex7_P /\ wf_mat 4 3 ex7_X.
@@ -203,12 +190,7 @@ Theorem C07_other_methods_empty :
   default_ctor_init = "implementation()"%string /\
   (forall name, In name dispatch_table <-> exists e, In e proj_table /\ pe_method e = name) /\
   length dispatch_table = length proj_table /\ dispatch_shape_ok = true.
-Proof.
-  split; [exact other_methods_empty|]. split; [apply proj_unimplemented_is_empty|].
-  split; [apply proj_unimplemented_is_empty|]. split; [exact dispatch_covered|].
-  destruct proj_table_dispatch as [_ [H [_ H2]]]. split; [|assumption].
-  unfold names_of in H. rewrite map_length in H. symmetry. exact H.
-Qed.
+Proof. exact other_methods_empty_all. Qed.
 Print Assumptions C07_other_methods_empty.
 
 Example C07_other_methods_nonvacuous :
